@@ -107,18 +107,33 @@ class MiniEval:
             return r.value
         return None
 
+    def _mark_defmodule(self, env: dict) -> None:
+        """a nested function / lambda reads the module-level names of the module it is DEFINED in, whoever calls it"""
+        ms = getattr(self, 'modstack', None)
+        if ms and '__defmodule__' not in env:
+            env['__defmodule__'] = ms[-1]
+
+    def _call_closure(self, node, cenv, args, kwargs):
+        saved = self.globals
+        ms = getattr(self, 'modstack', None)
+        pushed = ms is not None and cenv.get('__defmodule__') is not None
+        if pushed:
+            ms.append(cenv['__defmodule__'])
+        try:
+            self.globals = {**saved, **dict(cenv)}
+            return self.call_function(node, list(args), kwargs)
+        finally:
+            self.globals = saved
+            if pushed:
+                ms.pop()
+
     def as_callable(self, v: Any) -> Callable:
         """a Python callable for an interpreted function value (key= of sorted/min/max)"""
         if isinstance(v, tuple) and v[:1] == ('<func>',):
             _, node, cenv = v
 
             def call(*a, **k):
-                saved = self.globals
-                try:
-                    self.globals = {**saved, **dict(cenv)}
-                    return self.call_function(node, list(a), k)
-                finally:
-                    self.globals = saved
+                return self._call_closure(node, cenv, a, k)
             return call
         if callable(v):
             return v
@@ -246,6 +261,7 @@ class MiniEval:
                 name = ast.unparse(e)
             raise Raised(name, s)
         if isinstance(s, ast.FunctionDef):
+            self._mark_defmodule(env)
             env[s.name] = ('<func>', s, env)
             return
         if isinstance(s, ast.Match):
@@ -424,6 +440,7 @@ class MiniEval:
         if isinstance(e, ast.Lambda):
             fdef = ast.FunctionDef(name='<lambda>', args=e.args, body=[ast.Return(value=e.body, lineno=e.lineno, col_offset=0)],
                                    decorator_list=[], lineno=e.lineno, col_offset=0)
+            self._mark_defmodule(env)
             return ('<func>', fdef, env)
         if isinstance(e, ast.NamedExpr):
             v = self.expr(e.value, env)
@@ -549,15 +566,7 @@ class MiniEval:
             fv = env.get(f.id, self.globals.get(f.id))
             if isinstance(fv, tuple) and fv[:1] == ('<func>',):
                 _, node, cenv = fv
-                sub = MiniEval.__new__(type(self))
-                sub.__dict__.update(self.__dict__)
-                closure = dict(cenv)
-                saved = self.globals
-                try:
-                    self.globals = {**saved, **closure}
-                    return self.call_function(node, args, kwargs)
-                finally:
-                    self.globals = saved
+                return self._call_closure(node, cenv, args, kwargs)
             if f.id in self.calls:
                 return self.calls[f.id](*args, **kwargs)
             if isinstance(fv, type):
